@@ -85,6 +85,8 @@ CLAIMS["C19"] = ("site guards on payouts (comparison strictness), post-payout mu
 
 # repository-wide rules instantiated from the code itself (generic.go, recordlink.go), scoped per property
 GENERIC = {
+    "C20": " Also: all call sites of a store-key constructor pass their identifier kinds in the same order (genesis-only setters write under the key the runtime reads).",
+    "C18": " Also: in the lend keeper a refreshed accrual index comes with a refreshed accrual clock on every success path.",
     "C17": " Also: the wide window sum is divided before it is narrowed; consumers in every module read the stored price only under found and IsPriceActive of the very record read (4 known findings: reward valuation and the V2 bid path accept an inactive price).",
     "C15": " Also: at any depth inside a unit the error of a step that can fail after writing state is tested, handed on or returned, never dropped.",
     "C12": " Also: a record stored under an id read from a counter advances that counter on the same success path (otherwise the next creation overwrites the record and its owner).",
